@@ -17,6 +17,12 @@ proof side    : Props/C07.lean (findSpan_some_correct, findSpan_unique, basis_su
                 the slice of coeffs with numpy's shape check, contraction loops; gen_eval_spline_2d_eq/_model/_total (generated =
                 BSpline.evalSpline2D, all (der1,der2), guard deg <= span), gen_cu_eval_spline_2d_eq (= CubicUniform.cuEvalSpline2D with
                 trunc := pyInt, guard deg1 = deg2 = 3), gen_cu_eval_2d_eq_general_path)
+                Props/C07Gen6.lean / C07Gen7.lean (tie by translation of the 2-D CROSS and VECTOR entry points nu_/cu_eval_spline_2d_cross,
+                nu_/cu_eval_spline_2d_vector, Generated/Cross2DGen.lean / Vec2DGen.lean regenerated on every run; every (der1, der2) branch of the
+                source is its own copy of the nested loops with shared work arrays: gen_nu_cross_eq/_eq_scalar/_model/_total, gen_cu_cross_eq/
+                _eq_scalar/_general_path (z[i, j] = what the generated scalar 2-D kernel returns at (X[i], Y[j]) = the model, nothing outside
+                len(X) x len(Y) written), gen_nu_vec_* / gen_cu_vec_* (z[k] = the scalar kernel at (x[k], y[k]), nothing beyond len(x)),
+                gen_*_other_der (no write for der outside {0,1}^2))
 correspondence: every public entry point of pygyro/splines (Spline1D.eval scalar/array, eval_vector, BSplines[i],
                 Spline2D.eval scalar/cross, eval_vector, all (der1,der2)) and the raw nu_* / cu_* kernels, against the
                 exact-rational Lean models (Drivers/C07.lean); floats compared through common.close with the running
@@ -919,7 +925,10 @@ def run(chk):
     common.run_translator(chk, 'translate_pure.py', '--only', 'evalvec')
     # Props/C07Gen5.lean: the 2-D scalar kernels (Generated/Eval2DGen.lean), calling the generated 1-D kernels above
     common.run_translator(chk, 'translate_pure.py', '--only', 'eval2d')
-    chk.proof_side(build=not getattr(chk, 'no_build', False), extra_props=('C07Gen', 'C07Gen2', 'C07Gen3', 'C07Gen4', 'C07Gen5'))
+    # Props/C07Gen6.lean / C07Gen7.lean: the 2-D cross and vector entry points (Generated/Cross2DGen.lean, Vec2DGen.lean), tied to the scalar kernels above
+    common.run_translator(chk, 'translate_pure.py', '--only', 'cross2d')
+    common.run_translator(chk, 'translate_pure.py', '--only', 'vec2d')
+    chk.proof_side(build=not getattr(chk, 'no_build', False), extra_props=('C07Gen', 'C07Gen2', 'C07Gen3', 'C07Gen4', 'C07Gen5', 'C07Gen6', 'C07Gen7'))
     drv = common.LeanDriver('C07.lean')
     rng = chk.rng
     try:
